@@ -262,7 +262,7 @@ func c19M6(r *core.R) {
 				var other *ast.ReturnStmt
 				for b := range reachableFrom([]*cfg.Block{head}, nil) {
 					for _, n := range b.Nodes {
-						if ret, ok := n.(*ast.ReturnStmt); ok && len(ret.Results) > 0 && !info.Types[ret.Results[0]].IsNil() && objOf(info, ret.Results[0]) != hi {
+						if ret, ok := n.(*ast.ReturnStmt); ok && len(ret.Results) > 0 && !info.Types[ret.Results[0]].IsNil() && m.boundOf(ret.Results[0]) != hi {
 							if other == nil || ret.Pos() < other.Pos() {
 								other = ret
 							}
@@ -275,59 +275,9 @@ func c19M6(r *core.R) {
 					continue
 				}
 			}
-			ops := &c19TimeOps{m: m, fi: fi, tVar: tVar, sVars: vars, tsFld: tsFld}
-			found := m.nilAtom(vars, false)
-			type outcome struct {
-				lo, hi    ast.Node
-				undecided ast.Expr
-			}
-			var res [3]outcome
+			var res [3]c19Outcome
 			for k, ord := range []int{-1, 0, +1} {
-				at := ops.atom(ord, found)
-				oc := &res[k]
-				seen := map[*cfg.Block]bool{}
-				var run func(b *cfg.Block, from int)
-				run = func(b *cfg.Block, from int) {
-					for i := from; i < len(b.Nodes); i++ {
-						n := b.Nodes[i]
-						if as, ok := n.(*ast.AssignStmt); ok && len(as.Lhs) == len(as.Rhs) {
-							for j, lhs := range as.Lhs {
-								if !vars[objOf(info, as.Rhs[j])] {
-									continue
-								}
-								switch objOf(info, lhs) {
-								case lo:
-									oc.lo = n
-								case hi:
-									oc.hi = n
-								}
-							}
-						}
-						if c19Overwrites(info, n, vars) {
-							return // the next probe
-						}
-					}
-					succs := b.Succs
-					if cond := condOf(info, b); cond != nil {
-						switch evalTri(cond, at) {
-						case triT:
-							succs = b.Succs[:1]
-						case triF:
-							succs = b.Succs[1:2]
-						default:
-							if ops.mentionsTime(cond) && oc.undecided == nil {
-								oc.undecided = cond
-							}
-						}
-					}
-					for _, s := range succs {
-						if !seen[s] {
-							seen[s] = true
-							run(s, 0)
-						}
-					}
-				}
-				run(blk, idx+1)
+				m.classifyWalk(fi, blk, idx, vars, tVar, tsFld, lo, hi, ord, &res[k], 0)
 			}
 			names := []string{"before", "exactly at", "after"}
 			rel := []string{"<", "==", ">"}
